@@ -14,7 +14,10 @@
  */
 #include "vx.h"
 
-#include "rand.c"
+/* rand.c is linked as an object of its own (lib=['rand.c']); this file sees rand31_r exactly as a user does, through
+ * <librfn/rand.h> (a macro or inline version there is what gets checked), and every static of rand.c is put back to its
+ * start-of-program image before each block and before each single step (vx_lib_reset) */
+#include <librfn/rand.h>
 
 #define M31 2147483647u			/* 2^31 - 1 */
 #define NSTATES (M31 - 1)		/* states 1 .. 2^31-2 */
@@ -38,6 +41,7 @@ static uint64_t n_states, n_fold, n_bad_value, n_bad_stored, n_bad_range;
  * fault here, but a modified rand31_r might (division, table lookup, ...) */
 static void run_block(uint32_t lo, uint32_t hi)		/* states lo .. hi inclusive */
 {
+	vx_lib_reset();
 	for (uint32_t s = lo; ; s++) {
 		uint32_t seed = s, r = rand31_r(&seed), want = model_next(s);
 		if (r != want) n_bad_value++;
@@ -54,6 +58,7 @@ static volatile uint32_t one_r, one_seed;
 static int step_one(uint32_t s, uint32_t *r, uint32_t *seed)
 {
 	one_seed = s;
+	vx_lib_reset();
 	if (VX_TRY) { uint32_t t = s; one_r = rand31_r(&t); one_seed = t; VX_END; *r = one_r; *seed = one_seed; return 0; }
 	VX_END;
 	return vx_fault_kind;
@@ -94,6 +99,7 @@ static void report(uint32_t s, int what)
 static volatile uint32_t scan_hit; static volatile int scan_found;
 static void scan_block(int what, uint32_t lo, uint32_t hi)
 {
+	vx_lib_reset();
 	for (uint32_t s = lo; ; s++) {
 		uint32_t seed = s, r = rand31_r(&seed), want = model_next(s);
 		if ((what == BAD_VALUE && r != want) || (what == BAD_STORED && seed != r)) { scan_hit = s; scan_found = 1; return; }
@@ -103,6 +109,7 @@ static void scan_block(int what, uint32_t lo, uint32_t hi)
 static int first_bad(int what, uint32_t *out)
 {
 	for (uint32_t b = 0; b < NBLOCKS; b++) {
+		if (vx_deadline_passed()) return 0;
 		uint32_t lo = b << BLOCK_LOG2, hi = lo + (1u << BLOCK_LOG2) - 1;
 		if (lo < 1) lo = 1;
 		if (hi > M31 - 1) hi = M31 - 1;
@@ -131,6 +138,7 @@ static void orbit(void)
 	char sig[256];
 	const char *rep = "kind=orbit\n";
 	steps = 0;
+	vx_lib_reset();
 	for (;;) {
 		/* 2^22 steps per fault-capture section */
 		uint64_t chunk = 1u << 22;
@@ -186,6 +194,26 @@ static void orbit(void)
 	}
 }
 
+/* run block b from the pristine library state; record a violation if any step of it disagrees with the reference */
+static int block_bad(uint32_t b)
+{
+	uint32_t lo = b << BLOCK_LOG2, hi = lo + (1u << BLOCK_LOG2) - 1;
+	if (lo < 1) lo = 1;
+	if (hi > M31 - 1) hi = M31 - 1;
+	uint64_t k[5] = { n_states, n_fold, n_bad_value, n_bad_stored, n_bad_range };
+	int fault = 0;
+	if (VX_TRY) { run_block(lo, hi); VX_END; } else { VX_END; fault = 1; }
+	uint64_t dv = n_bad_value - k[2], ds = n_bad_stored - k[3], dr = n_bad_range - k[4];
+	n_states = k[0]; n_fold = k[1]; n_bad_value = k[2]; n_bad_stored = k[3]; n_bad_range = k[4];
+	if (!fault && !dv && !ds && !dr) return 0;
+	char sig[128], rep[64];
+	snprintf(sig, sizeof(sig), "block|depends-on-earlier-calls|states=%u..%u", lo, hi);
+	snprintf(rep, sizeof(rep), "kind=block\nb=%u\n", b);
+	vx_violation(sig, rep, "consecutive calls of rand31_r for the states %u..%u, starting from the library's start-of-program state: %llu wrong values, %llu wrong stored seeds, %llu values out of range%s - although no single state fails on its own: the result depends on earlier calls",
+		     lo, hi, (unsigned long long)dv, (unsigned long long)ds, (unsigned long long)dr, fault ? ", and a fault" : "");
+	return 1;
+}
+
 int main(int argc, char **argv)
 {
 	vx_init(argc, argv);
@@ -195,6 +223,7 @@ int main(int argc, char **argv)
 	if (rp) {
 		const char *kind = vx_replay_field(rp, "kind");
 		if (kind && !strcmp(kind, "orbit")) orbit();
+		else if (kind && !strcmp(kind, "block")) block_bad((uint32_t)strtoul(vx_replay_field(rp, "b"), NULL, 0) % NBLOCKS);
 		else {
 			const char *s = vx_replay_field(rp, "s");
 			uint32_t st = s ? (uint32_t)strtoul(s, NULL, 0) : 0;
@@ -246,15 +275,21 @@ int main(int argc, char **argv)
 	if (vx_args.worker == 0) vx_count("scope_guard_states_outside_1..2^31-2_not_run", (1ULL << 32) - NSTATES);
 	vx_and("exhaustive", complete);
 
-	uint32_t s;
+	uint32_t s; uint64_t v0 = vx_viol_total;
 	if (n_bad_value && first_bad(BAD_VALUE, &s)) report(s, BAD_VALUE);
 	if (n_bad_stored && first_bad(BAD_STORED, &s)) report(s, BAD_STORED);
 	if (faulted && first_bad(BAD_FAULT, &s)) report(s, BAD_FAULT);
+	/* mismatches were counted but no single state reproduces one on its own (a result that depends on earlier calls, e.g.
+	 * a first-use flag in a static), or the rescan ran out of time: the counters are judged all the same - name the first
+	 * block of this worker that shows a mismatch when run from the library's start-of-program state */
+	if ((n_bad_value || n_bad_stored || n_bad_range || faulted) && vx_viol_total == v0)
+		for (uint32_t b = 0; b < NBLOCKS; b++) {
+			if (!vx_mine(b)) continue;
+			if (block_bad(b)) break;
+		}
 
 	/* thorough: the full-period consequence, checked directly (one sequential walk, one worker) */
-#ifndef C17_NO_ORBIT	/* build-variant parts repeat the step sweep only */
 	if (vx_thorough() && vx_mine(NBLOCKS)) orbit();
-#endif
 
 	vx_finish();
 	return 0;
